@@ -125,7 +125,7 @@ class Boom(OSError):
     pass
 
 
-def make_resource(log, plan=None, delays=None, salt=""):
+def make_resource(log, plan=None, delays=None, salt="", version=None):
     """plan: dict base-key -> fault kind for the *next* fetch of that key (popped when used)
        kinds: 'notfound', 'raise-before', 'raise-half', 'ok'."""
     from ocean_science_utilities.filecache.remote_resources import RemoteResource, _RemoteResourceUriNotFound
@@ -148,7 +148,9 @@ def make_resource(log, plan=None, delays=None, salt=""):
                 if kind == "raise-before":
                     log.append(("raise-before", key, t))
                     raise Boom("before any byte")
-                data = content(key, salt)
+                # `version` is a one-element list: the resource's content can change between fetches (a re-fetch
+                # after a validation rejection must deliver the *new* bytes, a stale file must not be served)
+                data = content(key, salt + (version[0] if version else ""))
                 with open(filepath, "wb") as fh:
                     if kind == "raise-half":
                         fh.write(data[: len(data) // 2])
@@ -157,7 +159,7 @@ def make_resource(log, plan=None, delays=None, salt=""):
                         log.append(("raise-half", key, t))
                         raise Boom("after half of the bytes")
                     fh.write(data)
-                log.append(("done", key, t))
+                log.append(("done", key, t, version[0] if version else ""))
                 return True
             return _dl
 
@@ -223,6 +225,7 @@ class Lab:
         self.tick = 0
         self.foreign = {}  # name -> (bytes, mtime_ns)
         self.cache = None
+        self.version = [""]  # current content version of the remote resource
         self.unique = True  # every eviction so far had a unique answer under the model
         self.evictions = 0
         with AUDIT.harness():
@@ -240,7 +243,7 @@ class Lab:
 
     def open(self):
         from ocean_science_utilities.filecache.cache_object import FileCache
-        res = make_resource(self.log, self.plan, self.delays)
+        res = make_resource(self.log, self.plan, self.delays, version=self.version)
         with warnings.catch_warnings():
             warnings.simplefilter("ignore")
             self.cache = FileCache(self.root, self.limit_bytes / 1e9, resources=[res], parallel=self.parallel,
@@ -410,6 +413,19 @@ class Lab:
         if os.path.exists(pth):
             with AUDIT.harness():
                 os.utime(pth, None)
+            if name in self.model:
+                self.model[name]["last_use"] = self.tick
+
+    def op_access(self, key):
+        """the user reads the cached file: only the access time moves (mtime stays) - still a use"""
+        name = expected_name(key)
+        pth = os.path.join(self.root, name)
+        age_cache_files(self.root)
+        self.tick += 1
+        if os.path.exists(pth):
+            with AUDIT.harness():
+                st = os.stat(pth)
+                os.utime(pth, ns=(time.time_ns(), st.st_mtime_ns))
             if name in self.model:
                 self.model[name]["last_use"] = self.tick
 
